@@ -332,6 +332,7 @@ func (ss *Package) messageProperties(parent RootSchema, src protoreflect.Message
 			return nil, fmt.Errorf("placeholder already exists for oneof wrapper %q", oneofName)
 		}
 		refPlaceholder.To = oneofObject
+		verifhook.At("ref.linked")
 		if err := refPlaceholder.check(); err != nil {
 			return nil, err
 		}
@@ -1184,6 +1185,7 @@ func buildMessageFieldSchema(pkg *Package, context fieldContext, src protoreflec
 		} else {
 			ref.To, err = pkg.buildObjectSchema(msg, msgOptions.GetObject())
 		}
+		verifhook.At("ref.linked")
 		if err != nil {
 			return nil, err
 		}
@@ -1215,6 +1217,7 @@ func buildEnumFieldSchema(pkg *Package, context fieldContext, src protoreflect.F
 			return nil, err
 		}
 		ref.To = built
+		verifhook.At("ref.linked")
 	}
 
 	var rules *schema_j5pb.EnumField_Rules
